@@ -77,7 +77,7 @@ class Facade(object):
 
 
 class World(object):
-    def __init__(self, p, q, fail_fn=False, falsy=False, facade=False):
+    def __init__(self, p, q, fail_fn=False, falsy=False, facade=False, derived=False):
         F = instr.ME.futures
         self.p, self.q = p, q
         self.calls = []
@@ -86,6 +86,15 @@ class World(object):
         self.falsy = falsy
         self.futs = [SpyFuture("fn")] + [SpyFuture("p%d" % i) for i in range(p)] + [SpyFuture("k%d" % i) for i in range(q)]
         given = [Facade(f) for f in self.futs] if facade else list(self.futs)
+        if derived:
+            # the inputs are futures of this library (outputs of f_map) on which the user had already put a
+            # done-callback of their own - one that raises
+            given = [F.f_map(f, lambda v: v) for f in self.futs]
+
+            def user_cb(_f):
+                raise UserErrorB("user's own done-callback")
+            for g in given:
+                g.add_done_callback(user_cb)
         kw = {KW[i]: given[1 + p + i] for i in range(q)}
         self.out = F.f_apply(given[0], *given[1:1 + p], **kw)
         self.excs = {}
@@ -159,14 +168,15 @@ def run_order(case, res):
             rng.shuffle(base)
             orders.append(tuple(base))
     variants = ([("ok", None)] + [("fail", i) for i in range(n)] + [("fail_fn", None)] + [("fail_falsy", i) for i in range(n)]
-                + [("facade", None)] + [("facade_fail", n - 1)])
+                + [("facade", None)] + [("facade_fail", n - 1)] + [("derived", None)] + [("derived_fail", n - 1)])
     for order in orders:
         for kind, pos in (variants if len(orders) <= 24 else [variants[rng.randrange(len(variants))], ("ok", None)]):
             begin("rt")
             ctx = Ctx()
             try:
-                failing = kind in ("fail", "fail_falsy", "facade_fail")
-                w = World(p, q, fail_fn=(kind == "fail_fn"), falsy=(kind == "fail_falsy"), facade=kind.startswith("facade"))
+                failing = kind in ("fail", "fail_falsy", "facade_fail", "derived_fail")
+                w = World(p, q, fail_fn=(kind == "fail_fn"), falsy=(kind == "fail_falsy"), facade=kind.startswith("facade"),
+                          derived=kind.startswith("derived"))
                 # fn must not run before the last input resolves
                 for step, i in enumerate(order):
                     w.complete(i, fail=(failing and i == pos))
